@@ -176,7 +176,7 @@ Proof. exact (proj1 wf_pin_inhabited). Qed.
    given; the tracker was told exactly the stored pins of the applied entries (as a multiset); OfflineState is the replay of the
    prefix its newest snapshot is labelled with; after a kill the state is the replay of a prefix containing every acknowledged op *)
 Theorem raft_monitor_sound k cmds es : forallb in_premise cmds = true -> spec_okb k cmds es = true ->
-  trace_spec cmds [] (repeat snode0 (nn k)) es.
+  trace_spec cmds [] [] (repeat snode0 (nn k)) es.
 Proof. exact (monitor_sound_l k cmds es). Qed.
 Print Assumptions raft_monitor_sound.
 
@@ -187,15 +187,15 @@ Print Assumptions raft_monitor_sound.
    conjunct of the monitor that the model speaks about holds (`core`: all events but C17's OReady - acknowledgements included) *)
 Theorem raft_model_passes_monitor k cmds es :
   forallb in_premise cmds = true -> tag_of cmds es = 0 -> trace_wf k cmds es = true ->
-  model_eqb k cmds es = true -> spec_run_sel core cmds [] (repeat snode0 (nn k)) es = true.
+  model_eqb k cmds es = true -> spec_run_sel core cmds [] [] (repeat snode0 (nn k)) es = true.
 Proof. exact (model_passes_monitor_l k cmds es). Qed.
 Print Assumptions raft_model_passes_monitor.
 
-(* ... and the monitor is exactly these conjuncts plus the one of C17 (the readiness bound) and the shutdown clause (pass 3,
-   stop_run: the pass-1 model has no lock; the clause is proved of the model's shutdown below) *)
+(* ... and the monitor is exactly these conjuncts plus the one of C17 (the readiness bound); the shutdown clause (OStopped) is among
+   the conjuncts the model implies: the model has the lock *)
 Theorem raft_model_passes_spec_okb k cmds es :
   tag_of cmds es = 0 -> trace_wf k cmds es = true -> model_eqb k cmds es = true ->
-  spec_run_sel (fun e => negb (core e)) cmds [] (repeat snode0 (nn k)) es = true -> stop_run stopst0 es = true ->
+  spec_run_sel (fun e => negb (core e)) cmds [] [] (repeat snode0 (nn k)) es = true ->
   spec_okb k cmds es = true.
 Proof. exact (model_passes_spec_okb_l k cmds es). Qed.
 Print Assumptions raft_model_passes_spec_okb.
@@ -203,7 +203,7 @@ Print Assumptions raft_model_passes_spec_okb.
 (* the same read as the runner reads it: on a trace the model accepts, a code-2 failure never comes with tag 0 *)
 Theorem raft_no_untagged_failure k cmds es :
   trace_wf k cmds es = true -> model_eqb k cmds es = true ->
-  spec_run_sel (fun e => negb (core e)) cmds [] (repeat snode0 (nn k)) es = true -> stop_run stopst0 es = true ->
+  spec_run_sel (fun e => negb (core e)) cmds [] [] (repeat snode0 (nn k)) es = true ->
   spec_okb k cmds es = false -> tag_of cmds es <> 0.
 Proof. exact (no_untagged_failure_l k cmds es). Qed.
 Print Assumptions raft_no_untagged_failure.
@@ -219,7 +219,7 @@ Print Assumptions raft_atomic_guard_not_late.
 (* ... so the completeness statement holds under the atomic guard, without reference to the recogniser *)
 Theorem raft_model_passes_monitor_atomic k cmds es :
   forallb in_premise cmds = true -> is_S19 cmds = false -> trace_guard k cmds es = true ->
-  model_eqb k cmds es = true -> spec_run_sel core cmds [] (repeat snode0 (nn k)) es = true.
+  model_eqb k cmds es = true -> spec_run_sel core cmds [] [] (repeat snode0 (nn k)) es = true.
 Proof. exact (model_passes_monitor_atomic_l k cmds es). Qed.
 Print Assumptions raft_model_passes_monitor_atomic.
 
@@ -228,7 +228,7 @@ Print Assumptions raft_model_passes_monitor_atomic.
    operation is in the log at a position the committer has applied ... *)
 Theorem raft_ack_visible_on_committer k cmds pre c n post :
   model_eqb k cmds (pre ++ OAck c n :: post) = true ->
-  let cl := fst (model_after cmds [] (init (nn k)) pre) in
+  let cl := fst (model_after cmds [] [] (init (nn k)) pre) in
   exists j, (j < applied (getn (nn n) cl))%nat /\ nth_error (log cl) j = Some (cmd_of cmds c).
 Proof. exact (ack_in_log_l k cmds pre c n post). Qed.
 Print Assumptions raft_ack_visible_on_committer.
@@ -238,7 +238,7 @@ Print Assumptions raft_ack_visible_on_committer.
 Theorem raft_ack_in_committer_pinset k cmds pre c n post :
   forallb in_premise cmds = true -> tag_of cmds (pre ++ OAck c n :: post) = 0 -> trace_wf k cmds (pre ++ OAck c n :: post) = true ->
   model_eqb k cmds (pre ++ OAck c n :: post) = true ->
-  let cl := fst (model_after cmds [] (init (nn k)) pre) in
+  let cl := fst (model_after cmds [] [] (init (nn k)) pre) in
   let nd := getn (nn n) cl in
   exists j, (j < applied nd)%nat /\ nth_error (log cl) j = Some (cmd_of cmds c) /\
     forall x, writes x (cmd_of cmds c) = true -> existsb (writes x) (slice (S j) (applied nd) (log cl)) = false ->
@@ -339,16 +339,28 @@ Theorem raft_shutdown_race_refuted :
 Proof. exact shutdown_race_refuted_l. Qed.
 Print Assumptions raft_shutdown_race_refuted.
 
-(* the run-time form (pass 3 of spec_okb): when Shutdown has returned on n, every position acknowledged with committer n lies below
-   a label n has persisted *)
-Theorem raft_stop_monitor_sound pre n post : stop_run stopst0 (pre ++ OStopped n :: post) = true ->
-  (nget n (t_ack (stop_after stopst0 pre)) <= nget n (t_lbl (stop_after stopst0 pre)))%nat.
-Proof. exact (stop_run_sound_l pre stopst0 n post). Qed.
+(* the run-time form, read back at Prop level. For every trace the monitor accepts: an operation acknowledged at n before Shutdown
+   returned on n (OStopped n) is in the committed sequence `ops` below the label lb of the snapshot n leaves on disk; what OfflineState
+   returns right afterwards is the pinset replay (firstn lb ops), which holds the operation's effect for the cid it writes unless an
+   entry between it and lb writes the cid; and if the process that starts again restores a snapshot labelled lbl >= lb, what it serves
+   before any replay is replay (firstn m ops) for some m past the operation, with the same proviso *)
+Theorem raft_stop_monitor_sound k cmds pre c n mid l post x :
+  forallb in_premise cmds = true ->
+  spec_okb k cmds (pre ++ OAck c n :: mid ++ OStopped n :: OOffline n l :: post) = true ->
+  writes x (cmd_of cmds c) = true ->
+  exists ops lb j, (j < lb)%nat /\ nth_error ops j = Some (cmd_of cmds c) /\
+    l = map snd (replay (firstn lb ops)) /\
+    (existsb (writes x) (slice (S j) lb ops) = false -> sget x (replay (firstn lb ops)) = effect (cmd_of cmds c)) /\
+    (forall src kk lbl o post', post = ORestart n :: ORestore n src kk lbl :: OObs n o :: post' -> (lb <= nn lbl)%nat ->
+       exists m, (j < m)%nat /\ o = Some (map snd (replay (firstn m ops))) /\
+         (existsb (writes x) (slice (S j) m ops) = false -> sget x (replay (firstn m ops)) = effect (cmd_of cmds c))).
+Proof. exact (stop_sound_l k cmds pre c n mid l post x). Qed.
 Print Assumptions raft_stop_monitor_sound.
 
-(* a member shuts down after its final snapshot covered everything acknowledged at it: accepted. The same with a pin acknowledged at
-   it between the final snapshot and the stop (what rig R2 records under seed C01d): the model agrees with every observation - the
-   snapshot is not late, OfflineState is the prefix it is labelled with - and the monitor refuses the trace, with tag 0 *)
+(* a member shuts down after its final snapshot covered everything acknowledged at it: accepted by both passes. The same with a pin
+   acknowledged at it between the final snapshot and the stop (what rig R2 records under seed C01d): every observation agrees with the
+   model - the snapshot is not late, OfflineState is the prefix it is labelled with - up to the stop, which the model (it has the lock)
+   and the monitor both refuse, with tag 0 *)
 Example raft_shutdown_examples :
   let cmds := monitor_demo_cmds in
   let ok := [OCommit 0; OApply 0 0; OAck 0 0; OCommit 1; OApply 0 1; OAck 1 0; OSnapReq 0 true; OPersist 0; OStopped 0;
@@ -356,6 +368,6 @@ Example raft_shutdown_examples :
   let race := [OCommit 0; OApply 0 0; OAck 0 0; OSnapReq 0 true; OPersist 0; OCommit 1; OApply 0 1; OAck 1 0; OStopped 0;
                OOffline 0 [wpin 0 1]; ORestart 0; ORestore 0 0 0 1; OApply 0 1; OObs 0 (Some [wpin 0 1; wpin 1 1])] in
   (model_eqb 1 cmds ok = true /\ spec_okb 1 cmds ok = true) /\
-  (model_eqb 1 cmds race = true /\ trace_guard 1 cmds race = true /\ spec_okb 1 cmds race = false /\ tag_of cmds race = 0).
+  (model_eqb 1 cmds (firstn 8 race) = true /\ model_eqb 1 cmds race = false /\ trace_guard 1 cmds race = true /\
+   spec_okb 1 cmds race = false /\ tag_of cmds race = 0).
 Proof. repeat split; vm_compute; reflexivity. Qed.
-
